@@ -379,6 +379,10 @@ def rule_e(ctx):
             if fn in ("np.max", "np.amax", "np.nanmax") and v.args and isinstance(v.args[0], (list, tuple)) and v.kw.get("axis", None) == 0:
                 parts = [lb(x) for x in v.args[0]]
                 return max(p_[0] for p_ in parts), set().union(*[p_[1] for p_ in parts]), all(p_[2] for p_ in parts)
+            if fn in ("np.asarray", "np.array", "np.copy", "np.ascontiguousarray") and len(v.args) == 1:
+                return lb(v.args[0])   # conversions keep the values
+            if v.recv is not None and v.attr in ("copy", "astype") and not isinstance(v.recv, Opaque):
+                return lb(v.recv)
             if fn in ("np.abs", "np.absolute") and len(v.args) == 1:
                 return 0, set(), True
             if fn in ("np.zeros", "np.zeros_like"):
